@@ -30,11 +30,13 @@ Theorem C19_wo_field_refuted :
   wf_output "Dev" (dev IU8 [ex_reg "Ra" 0 RW None [ex_field "fa" WO None]]) = false.
 Proof. vm_compute. reflexivity. Qed.
 
-(* D8: readable repeated register with a negative stride under an unsigned register address type:
-   `callback(30 + 1 * -2, ..)` needs `u8: Neg` (E0277 / E0600). *)
-Theorem C19_negative_stride_refuted :
-  wf_output "Dev" (dev IU8 [ex_reg "Ra" 30 RW (Some {| r_count := 3; r_stride := -2 |}) [ex_field "fa" RW None]]) = false.
-Proof. vm_compute. reflexivity. Qed.
+(* D8 (REPAIRED in /repo): a readable repeated register with a negative stride under an unsigned register address
+   type used to emit `callback(30 + 1 * -2, ..)`, which needs `u8: Neg`.  Historical statement about the
+   obligation the unrepaired emitter failed; the model of the emission no longer contains it. *)
+Theorem C19_negative_stride_historical :
+  read_all_strides_ok (dev IU8 [ex_reg "Ra" 30 RW (Some {| r_count := 3; r_stride := -2 |}) [ex_field "fa" RW None]]) = false /\
+  wf_output "Dev" (dev IU8 [ex_reg "Ra" 30 RW (Some {| r_count := 3; r_stride := -2 |}) [ex_field "fa" RW None]]) = true.
+Proof. vm_compute. split; reflexivity. Qed.
 
 (* D9: any block ref — the target's struct (and impls) are emitted a second time (E0428/E0119/E0592). *)
 Theorem C19_block_ref_refuted :
@@ -70,8 +72,7 @@ Theorem C19_signed_discriminant_refuted :
                                     {| v_cfg := None; v_name := "Vb"; v_value := EVSpec 255 |}] |} true) |}]]) = false.
 Proof. vm_compute. reflexivity. Qed.
 
-(* Strongest true statement: outside those classes — no block refs, every field readable, no negative
-   stride on a readable register under an unsigned address type, enum numbers pairwise distinct and
+(* Strongest true statement: outside those classes — no block refs, every field readable, enum numbers pairwise distinct and
    representable in the enum's repr type (non-negative below 2^carrier on uint/bool fields, within the signed range on int fields) — and with type names unique per namespace (driver name, blocks and
    generated enums share the top level; field sets live in `mod field_sets`), the obligations hold; in
    particular the block structs emitted are exactly the declared blocks, once each. *)
@@ -80,7 +81,6 @@ Theorem C19_wf_output_partial : forall driver d,
   nodup_str (driver :: declared_blocks (tree_fuel d) (d_objects d) ++ map (fun x => e_name (fst (fst x))) (enums_of d)) = true ->
   nodup_str (field_set_type_names d) = true ->
   forallb (fun f => readable (f_access f)) (all_fields d) = true ->
-  read_all_strides_ok d = true ->
   forallb enum_literals_ok (enums_of d) = true ->
   wf_output driver d = true.
 Proof. exact wf_output_partial. Qed.
@@ -98,7 +98,7 @@ Example C19_partial_inhabited :
 Proof. vm_compute. split; reflexivity. Qed.
 
 Print Assumptions C19_wo_field_refuted.
-Print Assumptions C19_negative_stride_refuted.
+Print Assumptions C19_negative_stride_historical.
 Print Assumptions C19_block_ref_refuted.
 Print Assumptions C19_duplicate_discriminant_refuted.
 Print Assumptions C19_negative_discriminant_refuted.
